@@ -601,6 +601,42 @@ def _depends(fi: FunctionInfo, ret: ast.Return, local: str) -> bool:
 
 
 # --------------------------------------------------------------------------------------------------------------------
+def falsy_pass(run: Run, pkg: Package, funcs: List[FunctionInfo]) -> int:
+    """R-FALSY: `p = p or <default>` (or `if not p: p = <default>`) treats every falsy argument as "not given".  When a call site
+    inside the package passes a falsy constant (0, 0.0, False, "") for p on purpose, the callee silently replaces it."""
+    n = 0
+    all_funcs = pkg.all_functions()
+    for fi in funcs:
+        params = [p for p in fi.params if p not in ("self", "cls")]
+        sites = []
+        for s in ast.walk(fi.node):
+            if isinstance(s, ast.Assign) and len(s.targets) == 1 and isinstance(s.targets[0], ast.Name) and s.targets[0].id in params \
+                    and isinstance(s.value, ast.BoolOp) and isinstance(s.value.op, ast.Or) and isinstance(s.value.values[0], ast.Name) and s.value.values[0].id == s.targets[0].id:
+                sites.append((s.targets[0].id, s, ast.unparse(s.value.values[1])))
+            if isinstance(s, ast.If) and isinstance(s.test, ast.UnaryOp) and isinstance(s.test.op, ast.Not) and isinstance(s.test.operand, ast.Name) and s.test.operand.id in params \
+                    and len(s.body) == 1 and isinstance(s.body[0], ast.Assign) and any(isinstance(t, ast.Name) and t.id == s.test.operand.id for t in s.body[0].targets):
+                sites.append((s.test.operand.id, s, ast.unparse(s.body[0].value)))
+        for p, node, dflt in sites:
+            n += 1
+            for caller in all_funcs:
+                for call in ast.walk(caller.node):
+                    if not isinstance(call, ast.Call) or resolve_callee(pkg, caller, call) is not fi:
+                        continue
+                    arg = None
+                    for k in call.keywords:
+                        if k.arg == p:
+                            arg = k.value
+                    if arg is None and p in params and params.index(p) < len(call.args):
+                        arg = call.args[params.index(p)]
+                    if isinstance(arg, ast.Constant) and arg.value is not None and not arg.value:
+                        run.ob("R-FALSY", short(fi.qual), f"{p}@{short(caller.qual)}", False,
+                               "an argument given explicitly is used as given",
+                               f"{short(caller.qual)} passes {p}={arg.value!r}, but {fi.name} replaces every falsy {p} by {dflt} [{norm_stmt(node)[:70]}]",
+                               witness=f"{p}={arg.value!r} is falsy: the callee computes with {dflt} instead (as if the argument had been omitted)", loc=caller.loc(call), sound=True)
+    return n
+
+
+# --------------------------------------------------------------------------------------------------------------------
 def usecols_pass(run: Run, pkg: Package, funcs: List[FunctionInfo]) -> int:
     """pandas' documented contract: `usecols` selects a SET of columns - element order is ignored and the columns come back in
     file order.  A caller-ordered list handed to usecols whose result is then used positionally permutes the columns."""
@@ -682,6 +718,19 @@ def state_pass(run: Run, pkg: Package, everything: bool = False) -> None:
                 if g.qual not in seen:
                     seen.add(g.qual)
                     funcs.append(g)
+    if not everything:
+        # helpers the analysed functions call (transitively, within the package) are part of what they compute
+        seen = {f.qual for f in funcs}
+        work = list(funcs)
+        while work:
+            f = work.pop()
+            for call in ast.walk(f.node):
+                if isinstance(call, ast.Call):
+                    g = resolve_callee(pkg, f, call)
+                    if g is not None and g.qual not in seen and len(seen) < 400:
+                        seen.add(g.qual)
+                        funcs.append(g)
+                        work.append(g)
     counts = {
         "oneshot_bindings": oneshot_pass(run, pkg, funcs),
         "self_updates": selfupdate_pass(run, pkg, funcs),
@@ -691,5 +740,6 @@ def state_pass(run: Run, pkg: Package, everything: bool = False) -> None:
         "empty_allocations": uninit_pass(run, pkg, funcs),
         "stored_fields": statepath_pass(run, pkg, funcs),
         "usecols_reads": usecols_pass(run, pkg, funcs),
+        "falsy_defaults": falsy_pass(run, pkg, funcs),
     }
     run.extra["state_rules"] = {"functions": len(funcs), **counts}
